@@ -42,11 +42,23 @@ def wtsExtend (C : Q) : List Q → List Q → List Q → List Q × List Q
 def extendGrid (grid new : List Q) : List Q :=
   new.foldl (fun acc x => if x ∈ grid ∨ x ∈ acc then acc else acc ++ [x]) []
 
-/-- `Lagrange.refine` for one variable: `old = none` initialises, otherwise extends incrementally -/
+/-- The old weights carry the capacity of the domain at the time they were computed; before extending, `Lagrange.refine`
+    rescales them by the common factor that makes node 0's weight what it would be under the CURRENT capacity
+    (`w0 = 1 / prod((grid[0] - grid[1:n]) / C)`, `weights[:n] *= w0 / weights[0]`), for grids of more than one node. -/
+def rescaleWts (C : Q) (xs ws : List Q) : List Q :=
+  if xs.length > 1 then
+    let w0 := 1 / qprod ((xs.drop 1).map fun xi => (xs.getD 0 0 - xi) / C)
+    ws.map (· * (w0 / ws.getD 0 0))
+  else ws
+
+/-- `Lagrange.refine` for one variable: `old = none` initialises, otherwise extends incrementally (nothing changes when no
+    new node arrives) -/
 def refine1 (C : Q) (old : Option (List Q × List Q)) (pts : List Q) : List Q × List Q :=
   match old with
   | none => let g := extendGrid [] pts; (g, wtsInit C g)
-  | some (xs, ws) => wtsExtend C xs ws (extendGrid xs pts)
+  | some (xs, ws) =>
+      let new := extendGrid xs pts
+      if new.isEmpty then (xs, ws) else wtsExtend C xs (rescaleWts C xs ws) new
 
 /-! ### 1-d basis with the node special cases -/
 
